@@ -420,7 +420,10 @@ class CRef:
                 if fn["name"] == name and "py_lambda" in fn:
                     return fn["py_lambda"](self, [self.ev(x, env) for x in n.args])
             if name in mathfn.DOCUMENTED:
-                a = [self.ev(x, env)[1] for x in n.args]
+                av = [self.ev(x, env) for x in n.args]
+                if name == "abs" and len(av) == 1 and av[0][0] in ("int", "bool"):
+                    return ("int", abs(int(av[0][1])))
+                a = [x[1] for x in av]
                 c = mathfn.canonical(name)
                 try:
                     return ("double", float(PYMATH[c](*[float(x) for x in a])))
